@@ -129,6 +129,7 @@ pub fn big_indexed_store_case(n: u32) -> Case {
                 windows: vec![Win::Whole],
             }],
             linked: false,
+            index_meta: false,
         },
     }
 }
@@ -159,6 +160,7 @@ pub fn store_with_late_duplicates(kind: StoreKind, fixed: u8, n: u32) -> Case {
                 windows: vec![Win::Whole, Win::Suffix(60000)],
             }],
             linked: false,
+            index_meta: true,
         },
     }
 }
